@@ -27,6 +27,10 @@ class Lock:
         self.acquired = 0
         self.max_holders = 0
 
+    def __len__(self):
+        """the number of tasks queued on the lock (a FIFO lock may well expose that): an idle lock is *falsy* and still a lock"""
+        return 0
+
     async def __aenter__(self):
         while self.held:
             await Susp(("lockwait", self))
